@@ -23,6 +23,16 @@ VARIABLES
   tp, cf, ifc, gv,    \* per notified object: [{"mon","mgr"} -> ...]  (see ChainView)
   phase,              \* "dead" | "idle" | "moving"
   kind, histId, failTrig, baseConf, inputs, minDepth, tlOuts, tlHeight,
+  in1Out,             \* {} or {outpoint of the inbound HTLC whose preimage the node (comes to) know(s)}
+  holderStruct,       \* role 1 is the node's own commitment transaction
+  pre,                \* the node knows that preimage
+  lateConf,           \* confirmations of role 1 when the preimage was learned during the run (-1: not so)
+  claimH, rewound,    \* best height at that moment; the monitor was later rewound below it
+  lateFinal,          \* role 1 had been final (>= ARD confirmations at a sync point) when the preimage was learned
+  aheadH, rewoundE,   \* the monitor's tip was at this height (> the block's) when it was told that role 1 is
+                      \* confirmed (tip announced first / late confirmation); it was later rewound below it
+  lastH1, lowered,    \* height at which the monitor was last told role 1 is confirmed; it was re-confirmed
+                      \* LOWER through transactions_confirmed after transaction_unconfirmed
   readyAt,            \* blocks in which the funding had >= minDepth confirmations at a sync point
   commitSeen,         \* the channel had to be given up at a sync point: a commitment transaction was on the
                       \* best chain, or the funding had left the block in which it was deep enough to be used
@@ -31,7 +41,7 @@ VARIABLES
   over,               \* a role that was final has been reorganised away (beyond the property)
   v                   \* verdict of the last sync record
 
-tvars == <<hvars, target, l, tp, cf, ifc, gv, phase, kind, histId, failTrig, baseConf, inputs, minDepth, tlOuts, tlHeight, readyAt, commitSeen, reloaded,
+tvars == <<hvars, target, l, tp, cf, ifc, gv, phase, kind, histId, failTrig, baseConf, inputs, minDepth, tlOuts, tlHeight, in1Out, holderStruct, pre, lateConf, claimH, rewound, lateFinal, aheadH, rewoundE, lastH1, lowered, readyAt, commitSeen, reloaded,
            ever, over, v>>
 
 Rec == ndJsonDeserialize(IOEnv.TRACE)
@@ -46,13 +56,28 @@ DirectMap == LET L == SyncLines("direct") IN
   [p \in {Rec[i].key : i \in L} |-> CHOOSE i \in L : Rec[i].key = p]
 Objs == {"mon", "mgr"}
 NoConf == [r \in Roles |-> None]
-\* the recorded finding "pending claims lost on rewind" is waived (KNOWN_FINDINGS): a schedule other than
-\* the canonical one may then lack claims that the canonical delivery still has
-WaiveLostClaims == "C11_WAIVE" \in DOMAIN IOEnv /\ IOEnv.C11_WAIVE = "1"
+\* Recorded findings (KNOWN_FINDINGS.jsonl) about pending claims that get lost; each is waived only for
+\* the outpoints and histories of its own class, so that any other lost claim is still a violation:
+\*  A  the commitment was re-confirmed LOWER through transaction_unconfirmed + transactions_confirmed
+\*     and a later best_block_updated rewound below the original height: claims on its outputs
+\*  B  the claim on the funding output (own commitment broadcast after the manager gave the channel up
+\*     because its funding was reorganised out)
+\*  C  preimage learned while the node's OWN commitment was already confirmed: the HTLC claim is
+\*     registered at the then best height and dropped by a later rewind of the tip
+\*  D  preimage learned after the counterparty commitment had >= ARD confirmations: same
+\*  E  the node's OWN commitment was broadcast (HTLC timed out) while the tip was already announced and
+\*     its confirmation in an earlier block was given afterwards: the claims on its outputs stay
+\*     registered at the broadcast height and are dropped by a later rewind below it
+Waive(k) == k \in DOMAIN IOEnv /\ IOEnv[k] = "1"
+WaiveA == Waive("C11_WAIVE_A")
+WaiveB == Waive("C11_WAIVE_B")
+WaiveC == Waive("C11_WAIVE_C")
+WaiveD == Waive("C11_WAIVE_D")
+WaiveE == Waive("C11_WAIVE_E")
 
 AllGood == [hist |-> TRUE, best |-> TRUE, funding |-> TRUE, listed |-> TRUE, closed |-> TRUE, relevant |-> TRUE,
             remembers |-> TRUE, irrev |-> TRUE, aBal |-> TRUE, aRel |-> TRUE, aClaims |-> TRUE,
-            aChans |-> TRUE, aEvents |-> TRUE, aMsgs |-> TRUE, retract |-> TRUE]
+            aChans |-> TRUE, aEvents |-> TRUE, aMsgs |-> TRUE, retract |-> TRUE, claimsIn |-> TRUE]
 
 TraceInit ==
   /\ l = 1
@@ -62,6 +87,7 @@ TraceInit ==
   /\ ifc = [o \in Objs |-> "none"] /\ gv = [o \in Objs |-> FALSE]
   /\ phase = "dead" /\ kind = "" /\ histId = 0 /\ failTrig = <<>> /\ baseConf = 0 /\ inputs = <<>>
   /\ minDepth = 0 /\ tlOuts = {} /\ tlHeight = 0 /\ readyAt = {} /\ commitSeen = FALSE
+  /\ in1Out = {} /\ holderStruct = FALSE /\ pre = FALSE /\ lateConf = -1 /\ claimH = -1 /\ rewound = FALSE /\ lateFinal = FALSE /\ aheadH = -1 /\ rewoundE = FALSE /\ lastH1 = -1 /\ lowered = FALSE
   /\ reloaded = FALSE /\ ever = {} /\ over = FALSE
   /\ v = AllGood
 
@@ -81,26 +107,32 @@ TReset ==
      /\ kind' = r.kind /\ histId' = r.hist
      /\ failTrig' = r.failtrig /\ baseConf' = r.base_conf /\ inputs' = r.inputs /\ minDepth' = r.min_depth
      /\ tlOuts' = ToSet(r.tl_outs) /\ tlHeight' = r.tl_height
+     /\ in1Out' = ToSet(r.in1_out) /\ holderStruct' = r.holder /\ pre' = (r.in1_out # <<>> /\ ~r.late)
      /\ v' = AllGood
   /\ target' = 0
   /\ tp' = [o \in Objs |-> 0] /\ cf' = [o \in Objs |-> NoConf]
   /\ ifc' = [o \in Objs |-> "none"] /\ gv' = [o \in Objs |-> FALSE]
   /\ phase' = "idle" /\ reloaded' = FALSE /\ ever' = {} /\ over' = FALSE
-  /\ readyAt' = {} /\ commitSeen' = FALSE
+  /\ readyAt' = {} /\ commitSeen' = FALSE /\ lateConf' = -1 /\ claimH' = -1 /\ rewound' = FALSE /\ lateFinal' = FALSE /\ aheadH' = -1 /\ rewoundE' = FALSE /\ lastH1' = -1 /\ lowered' = FALSE
 
-Same == UNCHANGED <<hvars, kind, histId, failTrig, baseConf, inputs, minDepth, tlOuts, tlHeight, readyAt, commitSeen, ever, over>>
+Same == UNCHANGED <<hvars, kind, histId, failTrig, baseConf, inputs, minDepth, tlOuts, tlHeight, in1Out, holderStruct, readyAt, commitSeen, ever, over>>
+
+Same2 == UNCHANGED <<pre, lateConf, claimH, rewound, lateFinal, aheadH, rewoundE, lastH1, lowered>>
+\* the monitor is rewound to height h
+Rewinds(o, h) == /\ rewound' = (rewound \/ (o = "mon" /\ claimH >= 0 /\ h < claimH))
+                 /\ rewoundE' = (rewoundE \/ (o = "mon" /\ aheadH >= 0 /\ h < aheadH))
 
 TReload ==
   /\ IsEvent("reload") /\ phase = "idle"
   /\ ifc' = [o \in Objs |-> "none"] /\ reloaded' = TRUE
-  /\ Same /\ UNCHANGED <<target, tp, cf, gv, phase, v>>
+  /\ Same /\ Same2 /\ UNCHANGED <<target, tp, cf, gv, phase, v>>
 
 TBegin ==
   /\ IsEvent("begin") /\ phase = "idle"
   /\ MoveOK(target, Rec[l].target)
   /\ target' = Rec[l].target /\ phase' = "moving"
   /\ gv' = [o \in Objs |-> FALSE]
-  /\ Same /\ UNCHANGED <<tp, cf, ifc, reloaded, v>>
+  /\ Same /\ Same2 /\ UNCHANGED <<tp, cf, ifc, reloaded, v>>
 
 Upd(f, o, x) == [f EXCEPT ![o] = x]
 
@@ -109,7 +141,8 @@ TConn ==
   /\ LET o == Rec[l].who b == Rec[l].b IN
      /\ CanConnect(tp[o], ifc[o], b)
      /\ tp' = Upd(tp, o, b) /\ cf' = Upd(cf, o, ConfAfterConnect(cf[o], b)) /\ ifc' = Upd(ifc, o, "listen")
-  /\ Same /\ UNCHANGED <<target, gv, phase, reloaded, v>>
+     /\ lastH1' = IF o = "mon" /\ 1 \in txin[b] THEN Height(b) ELSE lastH1
+  /\ Same /\ UNCHANGED <<pre, lateConf, claimH, rewound, lateFinal, aheadH, rewoundE, lowered, target, gv, phase, reloaded, v>>
 
 TDisc ==
   /\ IsEvent("disc") /\ phase = "moving"
@@ -117,33 +150,49 @@ TDisc ==
      /\ f \in Blocks
      /\ CanDisconnect(tp[o], ifc[o], f)
      /\ tp' = Upd(tp, o, f) /\ cf' = Upd(cf, o, ConfAfterRewind(cf[o], f)) /\ ifc' = Upd(ifc, o, "listen")
-  /\ Same /\ UNCHANGED <<target, gv, phase, reloaded, v>>
+     /\ Rewinds(o, Height(f))
+  /\ Same /\ UNCHANGED <<pre, lateConf, claimH, lateFinal, aheadH, lastH1, lowered, target, gv, phase, reloaded, v>>
 
 TTxs ==
   /\ IsEvent("txs") /\ phase = "moving"
   /\ LET o == Rec[l].who b == Rec[l].b sel == ToSet(Rec[l].sel) IN
      /\ CanTxs(cf[o], ifc[o], b, sel)
      /\ cf' = Upd(cf, o, ConfAfterTxs(cf[o], b, sel)) /\ ifc' = Upd(ifc, o, "confirm") /\ gv' = Upd(gv, o, TRUE)
-  /\ Same /\ UNCHANGED <<target, tp, phase, reloaded, v>>
+     /\ lastH1' = IF o = "mon" /\ 1 \in sel THEN Height(b) ELSE lastH1
+     /\ lowered' = (lowered \/ (o = "mon" /\ 1 \in sel /\ lastH1 > Height(b)))
+     /\ aheadH' = IF o = "mon" /\ 1 \in sel /\ Height(tp[o]) > Height(b) /\ Height(tp[o]) > aheadH THEN Height(tp[o]) ELSE aheadH
+  /\ Same /\ UNCHANGED <<pre, lateConf, claimH, rewound, lateFinal, rewoundE, target, tp, phase, reloaded, v>>
 
 TBest ==
   /\ IsEvent("best") /\ phase = "moving"
   /\ LET o == Rec[l].who b == Rec[l].b IN
      /\ CanBest(tp[o], cf[o], ifc[o], b)
      /\ tp' = Upd(tp, o, b) /\ cf' = Upd(cf, o, ConfAfterBest(tp[o], cf[o], b)) /\ ifc' = Upd(ifc, o, "confirm")
-  /\ Same /\ UNCHANGED <<target, gv, phase, reloaded, v>>
+     /\ IF Anc(tp[o], b) THEN UNCHANGED <<rewound, rewoundE>> ELSE Rewinds(o, Height(b))
+  /\ Same /\ UNCHANGED <<pre, lateConf, claimH, lateFinal, aheadH, lastH1, lowered, target, gv, phase, reloaded, v>>
 
 TUnconf ==
   /\ IsEvent("unconf") /\ phase = "moving"
   /\ LET o == Rec[l].who IN
      /\ CanUnconfirm(cf[o], ifc[o], gv[o])
      /\ cf' = Upd(cf, o, ConfAfterUnconfirm(cf[o])) /\ ifc' = Upd(ifc, o, "confirm")
-  /\ Same /\ UNCHANGED <<target, tp, gv, phase, reloaded, v>>
+     \* un-confirming a transaction of height h takes the object back to height h - 1
+     /\ LET hs == {Height(cf[o][q]) - 1 : q \in Stale(cf[o])} IN
+        IF hs = {} THEN UNCHANGED <<rewound, rewoundE>>
+        ELSE Rewinds(o, CHOOSE x \in hs : \A y \in hs : x <= y)
+  /\ Same /\ UNCHANGED <<pre, lateConf, claimH, lateFinal, aheadH, lastH1, lowered, target, tp, gv, phase, reloaded, v>>
+
+\* the user claims the inbound payment: the node learns the preimage (at a synchronisation point)
+TClaim ==
+  /\ IsEvent("claim") /\ phase = "idle" /\ in1Out # {} /\ ~pre
+  /\ pre' = TRUE /\ lateConf' = Depth(1, target) /\ claimH' = Height(target)
+  /\ lateFinal' = (Place(1, target) # None /\ <<1, Place(1, target)>> \in ever \cup NowBuried)
+  /\ Same /\ UNCHANGED <<rewound, aheadH, rewoundE, lastH1, lowered, target, tp, cf, ifc, gv, phase, reloaded, v>>
 
 \* diagnostics: what the node emitted and when (judged at the sync record)
 TNote ==
   /\ (IsEvent("drain") \/ IsEvent("event") \/ IsEvent("message"))
-  /\ Same /\ UNCHANGED <<target, tp, cf, ifc, gv, phase, reloaded, v>>
+  /\ Same /\ Same2 /\ UNCHANGED <<target, tp, cf, ifc, gv, phase, reloaded, v>>
 
 \* ---- judging a synchronisation point
 ConfirmedTx(t) == (t \in Roles /\ Place(t, target) # None) \/ (t = 5 /\ ~fundingRole)
@@ -155,6 +204,17 @@ SpentInChain(op) == \E r \in Roles : Place(r, target) # None /\ \E i \in 1..Len(
 LiveOf(s) == {op \in UNION {ToSet(s[i]) : i \in 1..Len(s)} :
                  /\ ConfirmedTx(op[1]) /\ ~SpentInChain(op)
                  /\ op \in tlOuts => Height(target) >= tlHeight}
+AllClaimed(s) == UNION {ToSet(s[i]) : i \in 1..Len(s)}
+FundingIdx == IF fundingRole THEN 1 ELSE 5
+ClassesOf(op) ==
+  (IF WaiveB /\ op = <<FundingIdx, 0>> THEN {"B"} ELSE {})
+  \cup (IF WaiveA /\ lowered /\ op[1] = 1 THEN {"A"} ELSE {})
+  \* (whether the monitor was rewound below the height of the late claim is deliberately not part of
+  \*  C and D: the canonical delivery and the schedule compared with it may differ in exactly that)
+  \cup (IF WaiveC /\ op \in in1Out /\ holderStruct /\ lateConf >= 2 THEN {"C"} ELSE {})
+  \cup (IF WaiveD /\ op \in in1Out /\ ~holderStruct /\ lateFinal THEN {"D"} ELSE {})
+  \cup (IF WaiveE /\ holderStruct /\ rewoundE /\ op[1] = 1 THEN {"E"} ELSE {})
+Waived(op) == ClassesOf(op) # {}
 Pairs(rel) == {<<rel[i][1], rel[i][2]>> : i \in 1..Len(rel)}
 
 \* a role that was final is still where it was but with fewer confirmations than ARD now
@@ -170,9 +230,10 @@ TSync ==
          hasCanon == <<histId, i>> \in DOMAIN CanonMap
          c == IF kind = "sched" /\ hasCanon THEN Rec[CanonMap[<<histId, i>>]] ELSE r
          cmp == kind = "sched" /\ ~ov
-         strictClaims == LiveOf(r.R.claims) = LiveOf(c.R.claims)
-         waivedClaims == LiveOf(r.R.claims) \subseteq LiveOf(c.R.claims)
-         hasDirect == r.key \in DOMAIN DirectMap /\ kind # "direct" /\ ~ov /\ ~Shallower /\ ~reloaded
+         rl == LiveOf(r.R.claims)
+         cl == LiveOf(c.R.claims)
+         diffClaims == (rl \ cl) \cup (cl \ rl)
+         hasDirect == r.key \in DOMAIN DirectMap /\ kind # "direct" /\ ~ov /\ ~Shallower /\ ~reloaded /\ claimH < 0
          d == IF hasDirect THEN Rec[DirectMap[r.key]] ELSE r
          dClaims == LiveOf(d.R.claims)
      IN
@@ -181,7 +242,10 @@ TSync ==
      /\ readyAt' = readyAt \cup (IF fundingRole /\ Depth(1, target) >= minDepth THEN {Place(1, target)} ELSE {})
      /\ commitSeen' = (commitSeen \/ (\E q \in SpendRoles : Place(q, target) # None)
                                    \/ (fundingRole /\ \E b \in readyAt : Place(1, target) # b))
-     /\ (cmp /\ WaiveLostClaims /\ ~strictClaims /\ waivedClaims) => PrintT(<<"WAIVED", r.run, i>>)
+     /\ LET lostIn == IF pre /\ ~ov /\ Place(1, target) # None
+                       THEN {op \in in1Out : ~SpentInChain(op) /\ op \notin AllClaimed(r.R.claims)} ELSE {}
+            w == {op \in (IF cmp THEN diffClaims ELSE {}) \cup (IF hasDirect THEN dClaims \ rl ELSE {}) \cup lostIn : Waived(op)}
+        IN  w # {} => PrintT(<<"WAIVED", r.run, i, UNION {ClassesOf(op) : op \in w}>>)
      /\ v' = [hist |-> (kind = "sched" => hasCanon),
               best |-> (BestBlockIs(f.mbest) /\ BestBlockIs(f.gbest)),
               funding |-> (ov \/ f.conf < 0 \/ FundingDepthIs(f.conf, baseConf)),
@@ -196,7 +260,7 @@ TSync ==
               irrev |-> (ov \/ IrreversibleOK(f.irrev, failTrig, ever)),
               aBal |-> (cmp => r.R.bal = c.R.bal),
               aRel |-> (cmp => (r.R.mrel = c.R.mrel /\ r.R.grel = c.R.grel)),
-              aClaims |-> (cmp => IF WaiveLostClaims THEN waivedClaims ELSE strictClaims),
+              aClaims |-> (cmp => \A op \in diffClaims : Waived(op)),
               aChans |-> (cmp => r.R.chans = c.R.chans),
               aEvents |-> (cmp => r.S.evs = c.S.evs),
               aMsgs |-> (cmp => r.S.msgs = c.S.msgs),
@@ -205,12 +269,16 @@ TSync ==
                              /\ Pairs(f.mrel) = Pairs(d.f.mrel)
                              \* everything a fresh delivery of this chain claims is (again) being claimed; a
                              \* claim made while the chain was higher may legitimately still be pending
-                             /\ ((WaiveLostClaims /\ kind = "sched") \/ dClaims \subseteq LiveOf(r.R.claims))
-                             /\ (r.R.chans # <<>> => (r.R.chans = d.R.chans /\ Pairs(f.grel) = Pairs(d.f.grel))))]
+                             /\ \A op \in dClaims \ rl : Waived(op)
+                             /\ (r.R.chans # <<>> => (r.R.chans = d.R.chans /\ Pairs(f.grel) = Pairs(d.f.grel)))),
+              \* an inbound HTLC whose preimage the node knows, in a confirmed commitment, not yet spent on
+              \* the best chain, is being claimed
+              claimsIn |-> (ov \/ ~pre \/ Place(1, target) = None
+                            \/ \A op \in in1Out : SpentInChain(op) \/ op \in AllClaimed(r.R.claims) \/ Waived(op))]
   /\ phase' = "idle"
-  /\ UNCHANGED <<hvars, target, tp, cf, ifc, gv, kind, histId, failTrig, baseConf, inputs, minDepth, tlOuts, tlHeight, reloaded>>
+  /\ UNCHANGED <<hvars, target, tp, cf, ifc, gv, kind, histId, failTrig, baseConf, inputs, minDepth, tlOuts, tlHeight, in1Out, holderStruct, pre, lateConf, claimH, rewound, lateFinal, aheadH, rewoundE, lastH1, lowered, reloaded>>
 
-TraceNext == TReset \/ TReload \/ TBegin \/ TConn \/ TDisc \/ TTxs \/ TBest \/ TUnconf \/ TNote \/ TSync
+TraceNext == TReset \/ TReload \/ TClaim \/ TBegin \/ TConn \/ TDisc \/ TTxs \/ TBest \/ TUnconf \/ TNote \/ TSync
 
 TraceSpec == TraceInit /\ [][TraceNext]_tvars
 
@@ -236,4 +304,5 @@ ChannelsDeliveryIndependent == v.aChans
 EventsDeliveryIndependent == v.aEvents
 MessagesDeliveryIndependent == v.aMsgs
 ShallowReorgRetracts == v.retract
+KnownPreimageHtlcIsClaimed == v.claimsIn
 =============================================================================
